@@ -499,11 +499,36 @@ func runFraming(r *core.Run) {
 	if entry == 0 {
 		// event-driven consumer: on every arrival call Decode until it reports incomplete
 		arrived := 0
+		arrivals := 0
 		for {
 			chunk, err := src.Next()
 			if len(chunk) > 0 {
 				conn.Arrive(chunk)
 				arrived += len(chunk)
+			}
+			// one codec value serves every connection of a gateway: between two arrivals on this connection another
+			// connection gets a whole frame decoded by the same value, and each connection must see its own octets only
+			arrivals++
+			if !exhaustive && r.Cfg.Index%2 == 0 && arrivals%2 == 0 {
+				l := 4 + (arrivals*7+int(r.Cfg.Index))%50
+				f := make([]byte, l)
+				for i := range f {
+					f[i] = byte(i*31 + arrivals)
+				}
+				f[0], f[1], f[2], f[3] = 0, 0, 0, byte(l)
+				nb := simnet.NewSimConn(simnet.Compact, 64, nil)
+				nb.Arrive(f)
+				var got []byte
+				var nerr error
+				if p := r.Call(site, func() { got, nerr = cd.Decode(nb) }); p != nil {
+					r.Fail("C04", "panic", site, p.Kind, "Decode on a neighbouring connection panicked: %s", p.Value)
+					return
+				}
+				if nerr != nil || !bytes.Equal(got, f) {
+					r.Fail("C04", "frame-mismatch", site, "neighbour-same-codec", "a neighbouring connection served by the same codec value: its frame of %d octets came back as %s (%v)", l, hexN(got, 16), nerr)
+					return
+				}
+				r.Fault("neighbour_connection_decodes")
 			}
 			if err != nil {
 				conn.Fail(err)
@@ -646,7 +671,13 @@ func runFraming(r *core.Run) {
 			nb.Fail(io.EOF)
 			var got []byte
 			var err error
-			if p := r.Call(site, func() { got, err = cd.DecodeBlocked(nb) }); p != nil {
+			if p := r.Call(site, func() {
+				if r.Cfg.Index%2 == 1 {
+					got, err = cd.Decode(nb)
+				} else {
+					got, err = cd.DecodeBlocked(nb)
+				}
+			}); p != nil {
 				r.Fail("C04", "panic", site, p.Kind, "DecodeBlocked on the next connection panicked: %s", p.Value)
 			} else if err != nil || !bytes.Equal(got, f) {
 				r.Fail("C04", "frame-mismatch", site, "next-connection", "after a stream that ended with %s the same codec value returned %s (%v) for the next connection's frame %s", errName(plan.failErr), hexN(got, 16), err, hexN(f, 16))
